@@ -1,8 +1,8 @@
 SPECIFICATION Spec
 CONSTANTS
   Deviations <- AllDevs
-  Fams <- FamsAll
-  Modes <- ModesAll
+  Fams <- FamsNorm
+  Modes <- ModesChain
   Big = FALSE
 INVARIANT NeverSkipFusions
 CHECK_DEADLOCK FALSE
